@@ -18,4 +18,9 @@ LoadBytes(f, n) ==
 
 \* a single-field corruption of the header or of the buffer table must be refused (any error class)
 CorruptOK(ret) == ret # "ok"
+
+\* the relocation audit of a real arena (driver op `audit`): Arena!RegisteredPointersValid and the AllRegistered discipline
+\* seen from the implementation - no word of any buffer holds an address of the arena unless its slot is in the
+\* relocation list, and every listed slot lies inside its buffer and holds NULL or an address of the arena
+AuditOK(c) == c.unregistered = 0 /\ c.dangling = 0 /\ c.outside = 0
 =============================================================================
